@@ -59,7 +59,8 @@ RULES = {
            'set, then the generated script run straight afterwards; clock '
            'steps (days, midnight) between iteration start/stop and before '
            'the script runs; optionally gentest again over the existing '
-           'script/ref dir; non-trivial = output contains an identity or '
+           'script/ref dir, and/or a second different command generated '
+           'and run in the same simulated process; non-trivial = output contains an identity or '
            'date-like token, or output files exist, or a clock/ctime fault '
            'fired; distinct = distinct (options, reference-file form, test '
            'names, exclusion kinds, outcome) shapes',
